@@ -31,6 +31,7 @@ type Obligation struct {
 // Exec is the symbolic execution of one verification target.
 type Exec struct {
 	specReach  string
+	goalReach  string
 	atCallSeen map[*Clause]int
 	revealAll  bool
 	g         *Gen
@@ -787,7 +788,7 @@ func (f *frame) enterCutLoop(n *node, heap *Heap) *Heap {
 	// assume the invariant for the arbitrary iteration
 	n.heap = nh
 	for _, inv := range li.invs {
-		t := f.evalInvariant(li, inv, n, -1, nh)
+		t, _ := f.evalInvariant(li, inv, n, -1, nh, false)
 		x.g.Assume(implies(n.reach, t))
 	}
 	return nh
@@ -820,15 +821,15 @@ func (f *frame) checkInvariantAt(li *loopInfo, from *node, slot int, cond string
 		return
 	}
 	for _, inv := range li.invs {
-		t := f.evalInvariant(li, inv, from, slot, heap)
-		f.x.oblige(kind, fmt.Sprintf("loop%d.%d", li.ordinal, inv.N), inv.Props, and(cond, not(t)), f.fn, li.header.Instrs[0].Pos())
+		t, facts := f.evalInvariant(li, inv, from, slot, heap, true)
+		f.x.oblige(kind, fmt.Sprintf("loop%d.%d", li.ordinal, inv.N), inv.Props, and(cond, facts, not(t)), f.fn, li.header.Instrs[0].Pos())
 	}
 }
 
 // evalInvariant evaluates an invariant clause. slot >= 0: with the header phis taking
 // the values that flow along predecessor slot `slot` as seen from node `at`;
 // slot == -1: with the header node's own (havocked) phis.
-func (f *frame) evalInvariant(li *loopInfo, inv *Clause, at *node, slot int, heap *Heap) Val2 {
+func (f *frame) evalInvariant(li *loopInfo, inv *Clause, at *node, slot int, heap *Heap, goal bool) (Val2, string) {
 	x := f.x
 	binder := map[string]Val{}
 	for _, b := range inv.Binder {
@@ -895,7 +896,10 @@ func (f *frame) evalInvariant(li *loopInfo, inv *Clause, at *node, slot int, hea
 			fmt.Fprintf(os.Stderr, "inv %s loop%d.%d slot %d binder %s = %v (type %v)\n", f.fn.Name(), li.ordinal, inv.N, slot, k, v.C, v.T)
 		}
 	}
-	return x.evalClauseAt(at.reach, f, inv, heap, f.entryHeap, f.args, nil, binder)
+	if goal {
+		return x.evalClauseGoal(f, inv, heap, f.entryHeap, f.args, nil, binder)
+	}
+	return x.evalClauseAt(at.reach, f, inv, heap, f.entryHeap, f.args, nil, binder), "true"
 }
 
 type Val2 = string
